@@ -575,6 +575,101 @@ def fam_random(rng, idx):
     return {"id": f"{fam}-{idx}", "family": fam, "entry": "api", "name": "simproj", "files": files, "net": net, "steps": steps}
 
 
+def perturb(rng, d, k):
+    """A near twin of description d: the same script with ONE small thing changed that lives in, or
+    is looked up through, process-wide or shared state.  Pairs (d, twin) are what collides on
+    caches with lossy keys, leaked tables and aliased objects.  Sloppy on purpose: a twin naunet
+    cannot render alone is discarded by the reference run."""
+    import copy
+    import re
+
+    t = copy.deepcopy(d)
+    n, c = t["net"], t.setdefault("cli", {}) if t["entry"] == "cli" else t.get("cli", {})
+    ops = ["coefficient", "elements_extra", "required", "shielding", "rate_modifier"]
+    if any(f.endswith(".krome") for f in t.get("files", {})):
+        ops += ["krome_case", "krome_case", "krome_directive"]
+    if t["entry"] == "cli":
+        ops += ["binding", "binding", "replacement", "replacement", "yield"]
+    if n.get("grain_model"):
+        ops += ["grain_model", "set_eb"]
+    if n.get("cooling"):
+        ops += ["cooling_subset"]
+    if n.get("elements"):
+        ops += ["elements_order"]
+    op = rng.choice(ops)
+    files = t.get("files", {})
+    if op == "coefficient" and files:
+        # change the first number that looks like a rate coefficient in one data line
+        name = rng.choice(sorted(files))
+        lines = files[name].split("\n")
+        idxs = [i for i, ln in enumerate(lines) if ln and not ln.startswith(("#", "@", "from ", "import ", "class ", " ", "def "))]
+        if idxs:
+            i = rng.choice(idxs)
+            lines[i] = re.sub(r"(\d\.\d+)([eEdD][-+]?\d+)", lambda m: f"{float(m.group(1)) + 1.0:.3f}{m.group(2)}", lines[i], count=1)
+            files[name] = "\n".join(lines)
+    elif op == "krome_case":
+        name = next(f for f in sorted(files) if f.endswith(".krome"))
+        swap = rng.choice([("e-", "E-"), ("d-", "e-"), ("exp(", "EXP("), ("sqrt(", "SQRT("), ("E-", "e-")])
+        lines = files[name].split("\n")
+        out = []
+        for ln in lines:
+            if ln and not ln.startswith(("#", "@")) and "," in ln:
+                head, _, rate = ln.rpartition(",")
+                rate = re.sub(r"(\d)" + re.escape(swap[0][0]) + r"(-?\d)", lambda m: m.group(1) + swap[1][0] + m.group(2), rate) \
+                    if len(swap[0]) == 2 and swap[0][1] == "-" else rate.replace(swap[0], swap[1])
+                ln = head + "," + rate
+            out.append(ln)
+        files[name] = "\n".join(out)
+    elif op == "krome_directive":
+        name = next(f for f in sorted(files) if f.endswith(".krome"))
+        files[name] = "@common:user_extra\n" + files[name]
+    elif op == "binding":
+        be = dict(c.get("binding_energy") or {})
+        if be and rng.random() < 0.4:
+            be.pop(sorted(be)[0])
+        else:
+            be["#CO"] = float(rng.choice([855, 1300, 1575, 2222]))
+        c["binding_energy"] = be
+    elif op == "yield":
+        c["photon_yield"] = {} if c.get("photon_yield") else {"#CO": 0.07}
+    elif op == "replacement":
+        cur = c.get("replacement") or {}
+        c["replacement"] = rng.choice([x for x in ({}, {"HE": "He"}, dict(UCL_REPLACEMENT), {"E": "e", "HE": "He"}) if x != cur])
+    elif op == "grain_model":
+        n["grain_model"] = {"hh93": "rr07x", "rr07x": "hh93", "rr07": "rr07x"}.get(n["grain_model"], "hh93")
+    elif op == "set_eb":
+        pre = (n.get("species_kwargs") or {}).get("surface_prefix", "#")
+        pos = next((i for i, st in enumerate(t["steps"]) if st["s"] in RENDER_KINDS), len(t["steps"]))
+        t["steps"].insert(pos, {"s": "set_eb", "values": {pre + "CO": float(rng.choice([855, 1575])), pre + "H2O": 4800.0}})
+    elif op == "cooling_subset":
+        n["cooling"] = n["cooling"][:-1] or n["cooling"]
+    elif op == "elements_order":
+        n["elements"] = list(reversed(n["elements"]))
+    elif op == "elements_extra":
+        if n.get("elements"):
+            n["elements"] = n["elements"] + [rng.choice(["S", "Si", "Mg", "Fe", "Cl"])]
+    elif op == "required":
+        n["required_species"] = (n.get("required_species") or []) + ["N"]
+        if n.get("allowed_species"):
+            n["allowed_species"] = n["allowed_species"] + ["N"]
+    elif op == "shielding":
+        if t["entry"] == "api" and rng.random() < 0.5:
+            pos = next((i for i, st in enumerate(t["steps"]) if st["s"] in RENDER_KINDS), len(t["steps"]))
+            t["steps"].insert(pos, {"s": "shielding_inplace", "values": {"CO": "V09Table"}})
+        else:
+            n["shielding"] = dict(n.get("shielding") or {}, H2="L96Table")
+    elif op == "rate_modifier":
+        rm = dict(n.get("rate_modifier") or {})
+        rm[str(rng.choice([0, 1, 10, 11]))] = "7.0e-11 * zeta"
+        n["rate_modifier"] = rm
+        t["steps"] = [st for st in t["steps"] if st["s"] != "export"] or t["steps"]
+    t["id"] = f"{d['id']}~t{k}"
+    t["family"] = d["family"] + "~tw"
+    t["near_twin_of"] = d["id"]
+    t["perturbation"] = op
+    return t
+
+
 def pinned_descriptions():
     """Two fixed descriptions (no random choices) that carry the features earlier misses were traced
     to and that the random families only have with some probability."""
@@ -635,6 +730,11 @@ def build_library(seed, tier):
     for i in range(14 if tier == "quick" else 90):
         lib.append(fam_random(rng, i))
     lib += pinned_descriptions()
+    # near twins: for a seed-dependent subset (quick) or for every description (thorough)
+    base = list(lib)
+    chosen = base if tier != "quick" else rng.sample(base, min(len(base), 24))
+    for k, d in enumerate(chosen):
+        lib.append(perturb(rng, d, 0))
     # twins for the "independent of how often it is rendered" clause: the same description with
     # every rendering except the last one left out must give the same last rendering.  Twins are
     # only rendered as references (solo); they do not take part in the interleaved runs.
